@@ -227,7 +227,7 @@ def main(argv=None):
     _attach_known(mod, prop)
     mod._known_attached = True
     contracts = mod.CONTRACTS
-    timeout_ms = 10000 if args.tier == "quick" else 60000
+    timeout_ms = 20000 if args.tier == "quick" else 60000
     jobs = []
     for ci, ct in enumerate(contracts):
         if args.only and args.only not in ct.label:
@@ -325,6 +325,12 @@ def main(argv=None):
         obligations[full] = {"status": st, "instances": 1, "time": info.get("time", 0.0), "backends": {info.get("backend", "z3"): 1}}
         solver_time += info.get("time", 0.0)
         by_backend[info.get("backend", "z3")] = by_backend.get(info.get("backend", "z3"), 0) + 1
+        # a scripted lemma: every proof step is its own solver query / obligation
+        for sp in info.get("steps", []):
+            obligations["%s/step:%s" % (full, sp["step"])] = {
+                "status": sp["status"] if sp["status"] != "refuted" else "unknown", "instances": 1,
+                "time": sp["time"], "backends": {sp["backend"]: 1}}
+            by_backend[sp["backend"]] = by_backend.get(sp["backend"], 0) + 1
         if st == "refuted":
             violations.append({"obligation": full, "ci": None, "gi": None, "model": info.get("model"), "model_text": info.get("model_text")})
         elif st == "unknown":
@@ -441,6 +447,10 @@ def main(argv=None):
         "samples": (samples_out + [{"obligation": k, "status": o["status"], "instances": o.get("instances"),
                                     "time_s": round(o.get("time", 0.0), 3)} for k, o in list(obligations.items())[:25]])[:40],
         "obligation_names": sorted(obligations)[:2000],
+        "solver_budget_ms": timeout_ms,
+        "slowest_obligations": [{"obligation": k, "slowest_query_s": round(o.get("tmax", o.get("time", 0.0)), 2),
+                                 "time_s": round(o.get("time", 0.0), 2), "instances": o.get("instances")}
+                                for k, o in sorted(obligations.items(), key=lambda kv: -kv[1].get("tmax", kv[1].get("time", 0.0)))[:8]],
     }
     if bounded:
         b = dict(bounded)
